@@ -27,7 +27,9 @@ impl MessageBatch {
     }
 
     pub fn exceeded_interval(&self, now: Instant) -> bool {
-        now >= self.last_run + self.config.interval
+        self.last_run
+            .checked_add(self.config.interval)
+            .map_or(false, |deadline| now >= deadline)
     }
 
     pub fn exceeded_batch_size(&self) -> bool {
